@@ -47,7 +47,7 @@ func (a apiCall) String() string {
 
 type apiHistory struct {
 	M, P, C   int
-	OneRecord bool // every AddWarrior goes through one WarriorData variable that the caller refills (derived from M, P, C)
+	OneRecord bool       // every AddWarrior goes through one WarriorData variable that the caller refills (derived from M, P, C)
 	Templates [][]string `json:"templates"`
 	Calls     []string   `json:"calls"`
 	templates []mars.WarriorCode
